@@ -180,6 +180,41 @@ def main():
     ck.family("results_on_orders_at_close", sum(1 for io in simpl for o in io["obs"] if o["cb"] == "closed"), len(scs), [], rbad)
     for i in rbad[:2]:
         ck.fail("C20-results", "at a closing update an order does not carry the runner result of THAT update (e.g. a repeated close with a different result)", {"scenario": scs[i]})
+    # handicap lines: one selection id listed on several handicap lines that settle differently - each order gets the result of ITS line
+    hscs = []
+    for _ in range(24 if thorough else 8):
+        t0 = 1_700_000_000_000
+        lines = [(5001, -150), (5001, -50), (5001, 50), (5002, 150), (5002, 50), (5002, -50)]
+        rng.shuffle(lines)
+        res = {ln: rng.choice(["WINNER", "LOSER"]) for ln in lines}
+        if len(set(res.values())) < 2:
+            res[lines[0]] = "WINNER"; res[lines[-1]] = "LOSER"
+        def runners(final):
+            return [{"id": sel, "hc": hc / 100, "status": (res[(sel, hc)] if final else "ACTIVE"), "adj": None, "atb": [] if final else [[19000, 500]], "atl": [] if final else [[20000, 500]], "trd": []} for sel, hc in lines]
+        ups = [{"pt": t0 + 1000 * k, "status": "OPEN", "version": 1, "runners": runners(False)} for k in range(4)] + [{"pt": t0 + 5000, "status": "CLOSED", "version": 2, "runners": runners(True)}]
+        picks = rng.sample(lines, rng.randrange(2, 5))
+        acts = [{"s": 0, "m": 0, "u": 0, "acts": [["place", k + 1, sel, "BACK", {"t": "L", "p": 20000, "s": 200, "pt": "LAPSE", "tif": None, "mf": None}, {"mv": None, "hc": hc / 100}] for k, (sel, hc) in enumerate(picks)]}]
+        hscs.append({"config": {"place_latency": 0.12, "cancel_latency": 0.17, "update_latency": 0.15, "replace_latency": 0.28, "isolation": True},
+                     "clients": [{"bpe": True, "full_match": False, "limit": None, "min_val": False}], "strategies": [{"name": "s0", "client": 0}],
+                     "markets": [{"id": "1.100000009", "event": "20000009", "group": False, "type": "ASIAN_HANDICAP", "bsp": False, "persist": True, "winners": 1, "updates": ups}],
+                     "script": acts, "_picks": picks, "_res": {"%d/%d" % k: v for k, v in res.items()}})
+    houts = run_impl_parallel("simlib", [{"scenarios": [simgen.to_impl({k: v for k, v in x.items() if not k.startswith("_")}) for x in ch], "observe": "all"} for ch in chunked(hscs, 8)], timeout=1800)
+    himpl = [r for o in houts for r in o["out"]]
+    hbad = []
+    for i, (sc, io) in enumerate(zip(hscs, himpl)):
+        if io.get("error"):
+            hbad.append((i, "the run aborted: %s" % str(io["error"])[:120])); continue
+        placed = {"o%d" % (k + 1): ln for k, ln in enumerate(sc["_picks"])}
+        closed = [o for o in io["obs"] if o["cb"] == "closed"]
+        if not closed:
+            hbad.append((i, "no closed-market callback")); continue
+        for x in closed[-1]["orders"]:
+            ln = placed.get(x["o"])
+            if ln is not None and x["runner_status"] != sc["_res"]["%d/%d" % ln]:
+                hbad.append((i, "order %s placed on line %s has runner_status %s at the close, its line settled %s" % (x["o"], ln, x["runner_status"], sc["_res"]["%d/%d" % ln]))); break
+    ck.family("handicap_lines_results", len(hscs), len(hscs), [], sorted({i for i, _ in hbad}), dist={"orders": sum(len(x["_picks"]) for x in hscs), "lines_per_market": 6})
+    for i, why in hbad[:2]:
+        ck.fail("C20-results", "handicap market: " + why, {"scenario": {k: v for k, v in hscs[i].items() if not k.startswith("_")}, "results": hscs[i]["_res"]})
     # the corner "close of a market never seen open": reproduced on the implementation, reported as a listed finding
     for sc, io in zip(scs, simpl):
         m = sc["markets"][-1]
